@@ -227,3 +227,36 @@ pub fn run_case(case: &FmtCase) -> Result<Vec<CallObs>, String> {
     }
     Ok(out)
 }
+
+/// Handle over a scripted sink + handler log whose client is handed away (used
+/// by the macro engine: the client becomes the process-global default).
+pub struct ScriptedSinkHandle {
+    st: Arc<Mutex<SinkState>>,
+    hlog: Arc<Mutex<Vec<ErrInfo>>>,
+}
+
+impl ScriptedSinkHandle {
+    pub fn new() -> Self {
+        ScriptedSinkHandle {
+            st: Arc::new(Mutex::new(SinkState::default())),
+            hlog: Arc::new(Mutex::new(Vec::new())),
+        }
+    }
+    pub fn build_client(&self, cfg: &ClientCfg) -> StatsdClient {
+        build_client(cfg, ScriptedSink { st: self.st.clone() }, self.hlog.clone())
+    }
+    /// outcome (and error token) for the emits of the next call
+    pub fn arm(&self, out: SinkOut, token: u64) {
+        let mut g = self.st.lock().unwrap();
+        g.emitted.clear();
+        g.script.clear();
+        g.script.push_back((out, token));
+        self.hlog.lock().unwrap().clear();
+    }
+    pub fn take(&self) -> (Vec<String>, Vec<ErrInfo>) {
+        (
+            std::mem::take(&mut self.st.lock().unwrap().emitted),
+            std::mem::take(&mut *self.hlog.lock().unwrap()),
+        )
+    }
+}
